@@ -137,6 +137,18 @@ theorem witness_success_only_first_batch :
     telemetryCounts (runBatches false [⟨.clusterState, oneRouteSummary, .writeFails⟩]) =
       some (countResources oneRouteSummary) := by decide
 
+/-- the error bit the handler remembers (`updateFails`, since fix c94173a): on Plus an endpoints-only change after a failed
+write/reload goes through files + reload again, so a failing reload is recorded; the PRE-FIX arm (API alone) recorded success.
+It never had any influence on the counts (`telemetry_counts_ignore_outcomes`). -/
+theorem witness_plus_endpoints_only_after_failure :
+    (runBatches true [⟨.clusterState, oneRouteSummary, .reloadFails⟩, ⟨.endpointsOnly, oneRouteSummary, .reloadFails⟩]).lastError = true ∧
+    updateFails true true .endpointsOnly .reloadFails = true ∧ updateFailsPreFix true .endpointsOnly .reloadFails = false ∧
+    (∀ ct o, updateFails true false ct o = updateFailsPreFix true ct o) ∧
+    (∀ pe ct o, updateFails false pe ct o = updateFailsPreFix false ct o) := by
+  refine ⟨by decide, by decide, by decide, ?_, ?_⟩
+  · intro ct o; cases ct <;> cases o <;> rfl
+  · intro pe ct o; cases pe <;> cases ct <;> cases o <;> rfl
+
 /-! ## B. the platform string is a closed-form value -/
 
 /-- FOR ALL node label sets, namespace lists and providerID strings: the reported platform is one of the eight constants, or
@@ -337,7 +349,7 @@ and nowhere else; `Process` stores the graph it returns (`handleBatch` of the mo
 theorem facts_handle_batch :
     Generated.TelemetryTruth.handleBatchCases =
       ["state.NoChange => if !h.cfg.nginxConfiguredOnStartChecker.ready && h.cfg.nginxConfiguredOnStartChecker.firstBatchError == nil { h.cfg.nginxConfiguredOnStartChecker.setAsReady() } ;; return",
-       "state.EndpointsOnlyChange => h.version++ ;; cfg := dataplane.BuildConfiguration(ctx, gr, h.cfg.serviceResolver, h.version) ;; h.setLatestConfiguration(&cfg) ;; if h.cfg.plus { err = h.updateUpstreamServers(cfg) } else { err = h.updateNginxConf(ctx, cfg) }",
+       "state.EndpointsOnlyChange => h.version++ ;; cfg := dataplane.BuildConfiguration(ctx, gr, h.cfg.serviceResolver, h.version) ;; h.setLatestConfiguration(&cfg) ;; if h.cfg.plus && h.latestReloadResult.Error == nil { err = h.updateUpstreamServers(cfg) } else { err = h.updateNginxConf(ctx, cfg) }",
        "state.ClusterStateChange => h.version++ ;; cfg := dataplane.BuildConfiguration(ctx, gr, h.cfg.serviceResolver, h.version) ;; h.setLatestConfiguration(&cfg) ;; err = h.updateNginxConf(ctx, cfg)"] ∧
     Generated.TelemetryTruth.handleBatchAfterSwitch =
       ["var nginxReloadRes status.NginxReloadResult",
